@@ -401,7 +401,7 @@ func runC07(c *mc.Ctx) {
 	// numbers with a SHAPE in base 58 or base 256, at sizes no address has: 58^k - 1, 58^k, 58^k + 1
 	// (a digit string of all 'z', or '2' followed by '1's - a conversion that works in groups of digits
 	// or splits the number goes wrong on long runs of zero digits) for every k up to 1300 (thorough
-	// 3000 in steps), a*58^k + b*58^j for sparse pairs, 2^(8m) - 1 and 2^(8m) for every m up to 900
+	// 3000 in steps), a*58^k + b*58^j for sparse pairs, 2^(8m) - 1 and 2^(8m) for every m up to 900 and two in seven up to 3300 (6000)
 	{
 		var shaped [][]byte
 		one := big.NewInt(1)
@@ -425,7 +425,10 @@ func runC07(c *mc.Ctx) {
 				shaped = append(shaped, v.Bytes())
 			}
 		}
-		for m := 1; m <= 900; m++ {
+		for m := 1; m <= mc.Pick(c, 3300, 6000); m++ { // every length to 900 bytes, then in steps of 7, and the steps' neighbours
+			if m > 900 && m%7 != 0 && m%7 != 1 && m%100 != 78 {
+				continue
+			}
 			p2 := new(big.Int).Lsh(one, uint(8*m))
 			shaped = append(shaped, new(big.Int).Sub(p2, one).Bytes(), p2.Bytes())
 		}
